@@ -696,4 +696,204 @@ theorem runInfer_load_error (fs : Loader.FileSys) (f : Flags) {e : Loader.LoadEr
     (h : Loader.load fs parseForLoader f.training = .error e) : runInfer fs f = .error "loading" := by
   unfold runInfer; rw [h]
 
+/-- `m` does not carry a success value in its error channel -/
+def NoOk {α : Type} (m : M α) : Prop := ∀ s, m ≠ .error (.ok s)
+
+theorem NoOk.ok {α : Type} (a : α) : NoOk (.ok a : M α) := fun _ h => by cases h
+theorem NoOk.pure {α : Type} (a : α) : NoOk (pure a : M α) := fun _ h => by cases h
+theorem NoOk.err {α : Type} (w : String) : NoOk (.error (.error w) : M α) := fun _ h => by cases h
+
+theorem NoOk.bind' {α β : Type} {m : M α} {f : α → M β} (h1 : NoOk m) (h2 : ∀ a, m = .ok a → NoOk (f a)) :
+    NoOk (m >>= f) := by
+  intro s h
+  cases m with
+  | error e =>
+    have : (Except.error e : M β) = .error (.ok s) := h
+    cases this; exact h1 s rfl
+  | ok a => exact h2 a rfl s h
+
+theorem NoOk.bind {α β : Type} {m : M α} {f : α → M β} (h1 : NoOk m) (h2 : ∀ a, NoOk (f a)) :
+    NoOk (m >>= f) := NoOk.bind' h1 (fun a _ => h2 a)
+
+theorem NoOk.map {α β : Type} {m : M α} (f : α → β) (h : NoOk m) : NoOk (f <$> m) := by
+  intro s hs
+  cases m with
+  | error e =>
+    have : (Except.error e : M β) = .error (.ok s) := hs
+    cases this; exact h s rfl
+  | ok a => cases hs
+
+theorem NoOk.map' {α β : Type} {m : M α} (f : α → β) (h : NoOk m) : NoOk (m.map f) := by
+  intro s hs
+  cases m with
+  | error e =>
+    have : (Except.error e : M β) = .error (.ok s) := hs
+    cases this; exact h s rfl
+  | ok a => cases hs
+
+theorem NoOk.mapM {α β : Type} {f : α → M β} : ∀ {l : List α}, (∀ x ∈ l, NoOk (f x)) → NoOk (l.mapM f)
+  | [], _ => by simpa using NoOk.pure _
+  | x :: xs, h => by
+    rw [List.mapM_cons]
+    refine NoOk.bind (h x List.mem_cons_self) fun b => ?_
+    refine NoOk.bind (NoOk.mapM fun y hy => h y (List.mem_cons_of_mem _ hy)) fun bs => ?_
+    exact NoOk.pure _
+
+theorem elabDate_noOk (text : Bytes) (d : Syntax.Date) : NoOk (elabDate text d) := by
+  unfold elabDate; split
+  · exact NoOk.ok _
+  · exact NoOk.err _
+
+theorem elabDecimal_noOk (text : Bytes) (d : Syntax.Decimal) : NoOk (elabDecimal text d) := by
+  unfold elabDecimal; split
+  · exact NoOk.ok _
+  · exact NoOk.err _
+
+theorem elabAccount_noOk (text : Bytes) (a : Syntax.Account) : NoOk (elabAccount text a) := by
+  unfold elabAccount; simp only; split
+  · exact NoOk.ok _
+  · exact NoOk.err _
+
+theorem elabCommodity_noOk (text : Bytes) (c : Syntax.Commodity) : NoOk (elabCommodity text c) := by
+  unfold elabCommodity; simp only; split
+  · exact NoOk.ok _
+  · exact NoOk.err _
+
+theorem elabBooking_noOk (text : Bytes) (b : Syntax.Booking) : NoOk (elabBooking text b) := by
+  unfold elabBooking
+  exact NoOk.bind (elabDecimal_noOk _ _) fun _ => NoOk.bind (elabCommodity_noOk _ _) fun _ => NoOk.pure _
+
+theorem elabAccrual_noOk (text : Bytes) (a : Syntax.Accrual) : NoOk (elabAccrual text a) := by
+  unfold elabAccrual
+  refine NoOk.bind (elabDate_noOk _ _) fun _ => NoOk.bind (elabDate_noOk _ _) fun _ => ?_
+  split
+  · exact NoOk.err _
+  · exact NoOk.pure _
+
+theorem elabAccrualOpt_noOk (text : Bytes) (t : Syntax.Transaction) : NoOk (elabAccrualOpt text t) := by
+  unfold elabAccrualOpt; split
+  · exact NoOk.pure _
+  · exact NoOk.map' _ (elabAccrual_noOk _ _)
+
+theorem elabTargets_noOk (text : Bytes) (t : Syntax.Transaction) : NoOk (elabTargets text t) := by
+  unfold elabTargets; split
+  · exact NoOk.pure _
+  · exact NoOk.map' _ (NoOk.mapM fun _ _ => elabCommodity_noOk _ _)
+
+theorem txInput_noOk (text : Bytes) (t : Syntax.Transaction) : NoOk (txInput text t) := by
+  unfold txInput
+  refine NoOk.bind (elabDate_noOk _ _) fun _ => ?_
+  refine NoOk.bind (NoOk.mapM fun _ _ => elabBooking_noOk _ _) fun _ => ?_
+  refine NoOk.bind (elabTargets_noOk _ _) fun _ => ?_
+  exact NoOk.bind (elabAccrualOpt_noOk _ _) fun _ => NoOk.pure _
+
+theorem elabBalance_noOk (text : Bytes) (b : Syntax.Balance) : NoOk (elabBalance text b) := by
+  unfold elabBalance
+  exact NoOk.bind (elabAccount_noOk _ _) fun _ => NoOk.bind (elabDecimal_noOk _ _) fun _ =>
+    NoOk.bind (elabCommodity_noOk _ _) fun _ => NoOk.pure _
+
+theorem elabTransaction_noOk (text : Bytes) (t : Syntax.Transaction) : NoOk (elabTransaction text t) := by
+  unfold elabTransaction
+  refine NoOk.bind (txInput_noOk _ _) fun inp => ?_
+  cases Accrual.create inp with
+  | ok txs => exact NoOk.pure _
+  | error => exact NoOk.err _
+  | panic site => intro s h; cases h
+
+theorem elabDirective_noOk (text : Bytes) (d : Syntax.Directive) : NoOk (elabDirective text d) := by
+  unfold elabDirective
+  split
+  · exact elabTransaction_noOk text _
+  · exact NoOk.bind (elabAccount_noOk _ _) fun _ => NoOk.bind (elabDate_noOk _ _) fun _ => NoOk.pure _
+  · exact NoOk.bind (elabAccount_noOk _ _) fun _ => NoOk.bind (elabDate_noOk _ _) fun _ => NoOk.pure _
+  · exact NoOk.bind (elabDate_noOk _ _) fun _ =>
+      NoOk.bind (NoOk.mapM fun _ _ => elabBalance_noOk _ _) fun _ => NoOk.pure _
+  · exact NoOk.bind (elabDate_noOk _ _) fun _ => NoOk.bind (elabCommodity_noOk _ _) fun _ =>
+      NoOk.bind (elabDecimal_noOk _ _) fun _ => NoOk.bind (elabCommodity_noOk _ _) fun _ => NoOk.pure _
+  · exact NoOk.pure _
+
+theorem elabFile_noOk (tf : Bytes × Syntax.File) : NoOk (elabFile tf) := by
+  unfold elabFile
+  exact NoOk.map' _ (NoOk.mapM fun d _ => elabDirective_noOk _ d)
+
+/-- an error of `journal.FromPath` is an error or a panic, never a success value -/
+theorem fromPath_noOk (fs : Loader.FileSys) (path : Loader.Path) : NoOk (fromPath fs path) := by
+  unfold fromPath
+  cases h : Loader.load fs parseForLoader path with
+  | error e => exact NoOk.err _
+  | ok files => exact NoOk.map' _ (NoOk.mapM fun pf _ => elabFile_noOk _)
+
+theorem mapM_error_of_mem {α β : Type} {f : α → M β} : ∀ {l : List α} {x : α} {e : CmdOutcome},
+    x ∈ l → f x = .error e → ∃ e', l.mapM f = .error e'
+  | y :: ys, x, e, hx, he => by
+    rw [List.mapM_cons]
+    cases hy : f y with
+    | error e1 => exact ⟨e1, rfl⟩
+    | ok b =>
+      rcases List.mem_cons.mp hx with rfl | hin
+      · rw [hy] at he; cases he
+      · obtain ⟨e', h'⟩ := mapM_error_of_mem (l := ys) hin he
+        refine ⟨e', ?_⟩
+        rw [h']
+        rfl
+
+/-- an error while elaborating any loaded file (invalid date, amount, account, commodity, accrual) is an error of
+`journal.FromPath` -/
+theorem fromPath_error_of_file (fs : Loader.FileSys) (path : Loader.Path) :
+    ∀ files, Loader.load fs parseForLoader path = .ok files → ∀ pf ∈ files, ∀ e, elabFile pf.2 = .error e →
+      ∃ e', fromPath fs path = .error e' := by
+  intro files hl pf hpf e he
+  obtain ⟨e', h'⟩ := mapM_error_of_mem (f := fun (pf : Loader.Path × Bytes × Syntax.File) => elabFile pf.2) hpf he
+  refine ⟨e', ?_⟩
+  simp only [fromPath, hl, h']
+  rfl
+
+theorem ofExcept_bind_error {α : Type} {m : M α} {f : α → M CmdOutcome} {e : CmdOutcome} (h : m = .error e) :
+    ofExcept (m >>= f) = e := by rw [h]; rfl
+
+theorem commodityFlag_noOk (v : Option Commodity) : NoOk (commodityFlag v) := by
+  rcases commodityFlag_cases v with ⟨c, hc⟩ | hc <;> rw [hc]
+  · exact NoOk.ok _
+  · exact NoOk.err _
+
+theorem cls_ne_ok_of_error {m : M CmdOutcome} {e : CmdOutcome} (h : m = .error e) (he : ∀ s, e ≠ .ok s) :
+    (ofExcept m).cls ≠ .ok := by
+  subst h
+  cases e with
+  | ok s => exact absurd rfl (he s)
+  | error w => intro h'; cases h'
+  | panic s => intro h'; cases h'
+
+theorem fromPath_error_not_ok (fs : Loader.FileSys) (path : Loader.Path) {e : CmdOutcome}
+    (h : fromPath fs path = .error e) : ∀ s, e ≠ .ok s :=
+  fun s hs => fromPath_noOk fs path s (by rw [h, hs])
+
+/-- a journal command whose `journal.FromPath` fails does not succeed -/
+theorem runCheck_fromPath_error (fs : Loader.FileSys) (f : Flags) {e : CmdOutcome} (h : fromPath fs f.path = .error e) :
+    (runCheck fs f).cls ≠ .ok := by
+  unfold runCheck
+  exact cls_ne_ok_of_error (e := e) (by rw [h]; rfl) (fromPath_error_not_ok fs f.path h)
+
+theorem runPrint_fromPath_error (fs : Loader.FileSys) (f : Flags) {e : CmdOutcome} (h : fromPath fs f.path = .error e) :
+    (runPrint fs f).cls ≠ .ok := by
+  unfold runPrint
+  exact cls_ne_ok_of_error (e := e) (by rw [h]; rfl) (fromPath_error_not_ok fs f.path h)
+
+theorem runBalance_fromPath_error (fs : Loader.FileSys) (f : Flags) {e : CmdOutcome} (h : fromPath fs f.path = .error e) :
+    (runBalance fs f).cls ≠ .ok := by
+  unfold runBalance
+  rcases commodityFlag_cases f.balance.valuation with ⟨c, hc⟩ | hc
+  · exact cls_ne_ok_of_error (e := e) (by rw [hc, h]; rfl) (fromPath_error_not_ok fs f.path h)
+  · rw [hc]; intro h'; cases h'
+
+theorem runTranscode_fromPath_error (fs : Loader.FileSys) (f : Flags) {e : CmdOutcome} (h : fromPath fs f.path = .error e) :
+    (runTranscode fs f).cls ≠ .ok := by
+  unfold runTranscode
+  rcases commodityFlag_cases f.valuation with ⟨c, hc⟩ | hc
+  · rw [hc]
+    cases c with
+    | none => intro h'; cases h'
+    | some v => exact cls_ne_ok_of_error (e := e) (by rw [h]; rfl) (fromPath_error_not_ok fs f.path h)
+  · rw [hc]; intro h'; cases h'
+
 end Knut.Commands
